@@ -585,3 +585,11 @@ func Glob(pat, s string) bool {
 }
 
 var _ = token.NoPos
+
+// ObjID0 is the callee id under which calls to f appear (CalleeID).
+func ObjID0(f *Fn) string {
+	if f.Obj == nil {
+		return ""
+	}
+	return ObjID(f.Obj)
+}
